@@ -47,6 +47,7 @@ type Chunker struct {
 	Yield       bool // call runtime.Gosched before every Read
 	Zero        bool // occasionally return (0, nil), never twice in a row
 	EOFWithData bool // deliver the final chunk together with io.EOF
+	ErrWithData bool // deliver the final chunk before a fault together with the fault's error
 }
 
 // ErrInjected is the non-EOF error the fault injector returns.
@@ -127,6 +128,12 @@ func (r *Reader) Read(p []byte) (int, error) {
 		r.PostEOF = 0
 		return n, io.EOF
 	}
+	if r.Ch.ErrWithData && r.Pos == r.Limit && r.Fault {
+		if r.FaultErr != nil {
+			return n, r.FaultErr
+		}
+		return n, ErrInjected
+	}
 	return n, nil
 }
 
@@ -157,6 +164,9 @@ func (c Chunker) String() string {
 	}
 	if c.EOFWithData {
 		s += "+eofdata"
+	}
+	if c.ErrWithData {
+		s += "+errdata"
 	}
 	return s
 }
